@@ -13,7 +13,8 @@ EXPLANATION = (
     "touching state, and re-reads rules() only on the Ok edge; (5) round trip: every field Rule deserialises is also serialised under the "
     "same name, runtime-only fields are skipped both ways. Linearisation under the real scheduler follows from these and RwLock semantics."
     ' no-residue: the per-thread recursion budget of the checker/evaluator is given back on every exit, so a refused replacement leaves no state behind.'
-    ' validate-complete: the checker of every builtin admits no more operand kinds than its evaluator handles (so an ill-typed replacement is refused).')
+    ' validate-complete: the checker of every builtin admits no more operand kinds than its evaluator handles (so an ill-typed replacement is refused).'
+    ' success-without-swap: every Ok return of set_rules passes the write that replaces the list.')
 RULE_TEXT = "instances = writers of the rule list, exits of set_rules, guards in process_request, serde fields"
 TRUSTED = ["tokio RwLock gives writers exclusive access", "serde derives honour the field attributes"]
 NOT_DECIDED = ["linearisation under the actual scheduler (argued from 1-3 and RwLock semantics; not model-checked)"]
